@@ -30,8 +30,10 @@ MANIFEST = {
                 "(chain model printed; heap model and cell model run in lockstep, any divergence marks the line), and an independent "
                 "Python reference (plain lists, sorted(), capacity contract) is evaluated on the implementation's output.",
         "note": "Trusted: Lean kernel + the three standard axioms; the hand translation of the three headers into the models (validated by the "
-                "correspondence run, not proved); the growth mask and the items-per-block constants are read from the current sources by a "
-                "translator and the theorems reserve_policy_source / block_items_source are stated over them.  Modelled rather than verified: "
+                "correspondence run, not proved); the models and all theorems are parametric in the rounding mask of Array::reserve (reserve_policy: every mask "
+                "2^j-1) and in the items per block (>= 1) of List and PoolList; the values of the current sources are derived by "
+                "executing a probe built from the current headers (accepted: max(n,capacity)|m for one m = 2^j-1, equidistant block "
+                "allocations) and only instantiate them (mask_is_pow2_minus_one, block_items_pos).  Modelled rather than verified: "
                 "element types int and Tagged; copy construction and assignment exist only in the chain model (the lockstep heap replays them "
                 "as the insert(end, list) the C++ code performs); List::swap is proved on a separate two-sentinel shared heap (ptr_swap) that is "
                 "not run in lockstep (the lockstep exchanges the heaps); PoolList shares the heap model of List (its relinking code is a copy); "
